@@ -258,6 +258,14 @@ func sweep(e *emitter, machine string, thorough bool) {
 		docs = append(docs, []byte(`{"a" : 1 , "b" : [ 1 , 2 ] , "c" : { "d" : "x\n\u00e9\ud83d\ude00" } }`), []byte("[ 1.5e+3 , -0.25E-2 , true , false , null , \"s\" ]"), []byte(" null"), []byte("\ttrue"), []byte("false"))
 		comp := m.completions(docs)
 		for _, q := range states {
+			// end of input in this state
+			for _, op := range sweepOps[machine] {
+				if strings.HasPrefix(op, "rsb 22") {
+					e.emit("rsb 22%s - 0", strings.TrimPrefix(hs(acc[q]), "-"))
+				} else {
+					e.emit(op, hs(acc[q]))
+				}
+			}
 			for b := 0; b < 256; b++ {
 				if cq, have := comp[q]; have && len(cq) < 200 {
 					// insert b before, and substitute b for, the next byte of a valid continuation
